@@ -49,7 +49,8 @@ fn do_input_one_var<S: InterpreterTrait>(
         TypeQualifier::BangSingle => Variant::from(parse_single_input(raw_input)?),
         TypeQualifier::DollarString => Variant::from(raw_input),
         TypeQualifier::PercentInteger => Variant::from(parse_int_input(raw_input)?),
-        _ => todo!("INPUT type {} not supported yet", q),
+        TypeQualifier::AmpersandLong => Variant::from(parse_long_input(raw_input)?),
+        TypeQualifier::HashDouble => Variant::from(parse_double_input(raw_input)?),
     };
     interpreter.context_mut()[index] = new_value;
     Ok(())
@@ -85,12 +86,42 @@ fn parse_single_input(s: String) -> Result<f32, RuntimeError> {
     }
 }
 
+fn parse_double_input(s: String) -> Result<f64, RuntimeError> {
+    if s.is_empty() {
+        Ok(0.0)
+    } else {
+        s.parse::<f64>()
+            .map_err(|e| RuntimeError::Other(format!("Could not parse {} as double: {}", s, e)))
+    }
+}
+
+fn parse_long_input(s: String) -> Result<i64, RuntimeError> {
+    if s.is_empty() {
+        Ok(0)
+    } else {
+        match s.parse::<i32>() {
+            Ok(l) => Ok(l as i64),
+            Err(e) => Err(RuntimeError::Other(format!(
+                "Could not parse {} as long: {}",
+                s, e
+            ))),
+        }
+    }
+}
+
 fn parse_int_input(s: String) -> Result<i32, RuntimeError> {
     if s.is_empty() {
         Ok(0)
     } else {
-        s.parse::<i32>()
-            .map_err(|e| RuntimeError::Other(format!("Could not parse {} as int: {}", s, e)))
+        match s.parse::<i32>() {
+            // an integer variable cannot hold more than 16 bits
+            Ok(i) if !(-32768..=32767).contains(&i) => Err(RuntimeError::Overflow),
+            Ok(i) => Ok(i),
+            Err(e) => Err(RuntimeError::Other(format!(
+                "Could not parse {} as int: {}",
+                s, e
+            ))),
+        }
     }
 }
 
